@@ -132,6 +132,9 @@ func TestPropEventsManyWindows(t *testing.T) {
 				}
 				chunk := uint64(rapid.SampledFrom([]int{1000, 1000, 40, 7, 1}).Draw(rt, "chunk"))
 				limit := uint(rapid.SampledFrom([]int{0, 0, 0, 1, 5, 64}).Draw(rt, "limit"))
+				if limit > 0 && len(f.addrs) == 0 && len(f.keys) == 0 && to > from+20000 {
+					limit = 4096 // an unfiltered scan visits every block: keep the number of pages of a whole-chain sweep in the dozens
+				}
 				c.Fp("q a%v k%v %d-%d c%d l%d", f.addrs, f.keys, from, to, chunk, limit)
 				rt.Logf("HIST query addrs=%v keypos=%d range %d-%d chunk %d limit %d head=%d", shortF(f.addrs), len(f.keys), from, to, chunk, limit, head)
 				model := append([]*core.Block{}, mwBase.events...)
